@@ -65,8 +65,9 @@ PREBUILD = [gen_solvectl]
 
 TINY100 = 100 * np.finfo(float).tiny
 SOLVERS = ['bicgstab', 'cgs', 'gcrotmk']
-MODES = ['fresh', 'good', 'bad', 'wrongdtype', 'zero_fresh', 'zero_supplied', 'nofreq', 'nan_source',
-         'tiny_source']
+MODES = ['fresh', 'good', 'good_nonpec', 'bad', 'wrongdtype', 'zero_fresh', 'zero_supplied', 'nofreq',
+         'nan_source', 'tiny_source']
+FACES = ['x0', 'x1', 'y0', 'y1', 'z0', 'z1']
 
 
 # ------------------------------------------------------------------ problems
@@ -164,10 +165,85 @@ def indep_resnorm(ind, sfield, efield):
     return float(scipy.linalg.norm(np.concatenate([x.ravel() for x in r]), check_finite=False))
 
 
+def cancel_scale(ind, sfield, efield):
+    """Magnitude of the terms that cancel in s - A e: | |s| + |A| |e| | with the operator's stencil
+    applied to absolute values with all signs positive (checker-side, same structure as fit_apply).
+    The rounding error of ANY floating-point evaluation of the residual (emg3d's or the checker's) is a
+    small multiple of eps times this; on stretched grids it exceeds |s| by many orders of magnitude."""
+    eta, zeta, (hx, hy, hz) = ind
+    ex, ey, ez = (np.abs(np.asarray(a)) for a in (efield.fx, efield.fy, efield.fz))
+    HX, HY, HZ = hx[:, None, None], hy[None, :, None], hz[None, None, :]
+    cx = (ez[:, 1:, :] + ez[:, :-1, :]) / HY + (ey[:, :, 1:] + ey[:, :, :-1]) / HZ
+    cy = (ex[:, :, 1:] + ex[:, :, :-1]) / HZ + (ez[1:, :, :] + ez[:-1, :, :]) / HX
+    cz = (ey[1:, :, :] + ey[:-1, :, :]) / HX + (ex[:, 1:, :] + ex[:, :-1, :]) / HY
+    zp = np.pad(np.abs(zeta), 1, mode='edge')
+    ux = 0.5 * (zp[:-1, 1:-1, 1:-1] + zp[1:, 1:-1, 1:-1]) * cx
+    uy = 0.5 * (zp[1:-1, :-1, 1:-1] + zp[1:-1, 1:, 1:-1]) * cy
+    uz = 0.5 * (zp[1:-1, 1:-1, :-1] + zp[1:-1, 1:-1, 1:]) * cz
+    hyj, hym = hy[None, 1:, None], hy[None, :-1, None]
+    hzk, hzm = hz[None, None, 1:], hz[None, None, :-1]
+    hxi, hxm = hx[1:, None, None], hx[:-1, None, None]
+    ax, ay, az = np.zeros_like(ex), np.zeros_like(ey), np.zeros_like(ez)
+    ax[:, 1:-1, 1:-1] = (uz[:, 1:, 1:-1] / hyj + uz[:, :-1, 1:-1] / hym
+                         + uy[:, 1:-1, 1:] / hzk + uy[:, 1:-1, :-1] / hzm)
+    ay[1:-1, :, 1:-1] = (ux[1:-1, :, 1:] / hzk + ux[1:-1, :, :-1] / hzm
+                         + uz[1:, :, 1:-1] / hxi + uz[:-1, :, 1:-1] / hxm)
+    az[1:-1, 1:-1, :] = (uy[1:, 1:-1, :] / hxi + uy[:-1, 1:-1, :] / hxm
+                         + ux[1:-1, 1:, :] / hyj + ux[1:-1, :-1, :] / hym)
+    etx, ety, etz = (np.abs(a) for a in eta)
+    ax[:, 1:-1, 1:-1] += 0.25 * (etx[:, :-1, :-1] + etx[:, :-1, 1:] + etx[:, 1:, :-1] + etx[:, 1:, 1:]) * ex[:, 1:-1, 1:-1]
+    ay[1:-1, :, 1:-1] += 0.25 * (ety[:-1, :, :-1] + ety[1:, :, :-1] + ety[:-1, :, 1:] + ety[1:, :, 1:]) * ey[1:-1, :, 1:-1]
+    az[1:-1, 1:-1, :] += 0.25 * (etz[:-1, :-1, :] + etz[1:, :-1, :] + etz[:-1, 1:, :] + etz[1:, 1:, :]) * ez[1:-1, 1:-1, :]
+    import scipy.linalg
+    parts = [ax + np.abs(np.asarray(sfield.fx)), ay + np.abs(np.asarray(sfield.fy)), az + np.abs(np.asarray(sfield.fz))]
+    return float(scipy.linalg.norm(np.concatenate([x.ravel() for x in parts]), check_finite=False))
+
+
+NOISE_EPS = 32 * np.finfo(float).eps      # measured worst |abs_error - indep|/(eps*cancel_scale) = 0.124 over 786 runs; x258
+
+
 def pec_ok(f):
     return not (np.any(f.fx[:, 0, :]) or np.any(f.fx[:, -1, :]) or np.any(f.fx[:, :, 0]) or np.any(f.fx[:, :, -1])
                 or np.any(f.fy[0, :, :]) or np.any(f.fy[-1, :, :]) or np.any(f.fy[:, :, 0]) or np.any(f.fy[:, :, -1])
                 or np.any(f.fz[0, :, :]) or np.any(f.fz[-1, :, :]) or np.any(f.fz[:, 0, :]) or np.any(f.fz[:, -1, :]))
+
+
+def nonpec_good_field(spec, cfg, grid, model, sfield, ind):
+    """A caller-supplied field e = e0 + g that satisfies the interior equations for `sfield` to far
+    better than tol but has NON-ZERO tangential values on one boundary face: g lives only on that
+    face (tangential components), e0 is emg3d's own PEC solution for the source s - A g, with A applied
+    by the checker-side operator.  emg3d's residual treats boundary values as stencil data only, so
+    only the order 'PEC zeroing, then already-good-enough test' protects the property."""
+    import emg3d
+    npc = spec.get('nonpec') or {'face': 'z1', 'which': 'both'}
+    face, which = npc['face'], npc.get('which', 'both')
+    cplx = spec['freq'] > 0
+    kw = dict(sslsolver=False, semicoarsening=True, linerelaxation=True, maxit=200, verb=-1)
+    eref = emg3d.solve(model, sfield, tol=1e-6, **kw)
+    amp = float(np.max(np.abs(eref.field))) or 1.0
+    g = emg3d.Field(grid, frequency=spec['freq'])
+    npr = np.random.RandomState(spec['np_seed'] + 7)
+    ax, k = 'xyz'.index(face[0]), (0 if face[1] == '0' else -1)
+    comps = [c for c in range(3) if c != ax]          # tangential components of that face
+    if which == 'first':
+        comps = comps[:1]
+    elif which == 'second':
+        comps = comps[1:]
+    for c in comps:
+        arr = (g.fx, g.fy, g.fz)[c]
+        idx = [slice(None)] * 3
+        idx[ax] = k
+        shp = arr[tuple(idx)].shape
+        val = npr.randint(1, 9, shp) / 8.0
+        if cplx:
+            val = val + 1j * npr.randint(-8, 9, shp) / 8.0
+        arr[tuple(idx)] = amp * val / 8.0
+    eta, zeta, hs = ind
+    ag = fit_apply((np.asarray(g.fx), np.asarray(g.fy), np.asarray(g.fz)), eta, zeta, *hs)
+    s2 = emg3d.Field(grid, frequency=spec['freq'])
+    s2.fx, s2.fy, s2.fz = sfield.fx - ag[0], sfield.fy - ag[1], sfield.fz - ag[2]
+    e0 = emg3d.solve(model, s2, tol=min(cfg['tol'] * 1e-4, 1e-9), **kw)
+    return emg3d.Field(grid, (e0.field + g.field).astype(sfield.field.dtype), frequency=spec['freq'])
 
 
 # --------------------------------------------------------------- impl runner
@@ -182,6 +258,8 @@ def run_impl(spec, cfg, mode, stub=None):
     import emg3d
     import emg3d.solver as S
     import scipy.sparse.linalg as ssl
+    if mode == 'good_nonpec' and not spec.get('nonpec'):
+        spec = dict(spec, nonpec={'face': 'z1', 'which': 'both'})     # explicit in replay files
     grid, model, sfield, ind = build(spec)
     cplx = spec['freq'] > 0
     R = Run()
@@ -197,6 +275,8 @@ def run_impl(spec, cfg, mode, stub=None):
         sfield.field[np.flatnonzero(sfield.field)[:1]] = np.nan
     if mode == 'nofreq':
         sfield = emg3d.Field(grid, sfield.field.copy())
+    if mode == 'good_nonpec':
+        supplied = nonpec_good_field(spec, cfg, grid, model, sfield, ind)
     if mode in ('good', 'bad', 'wrongdtype', 'zero_supplied'):
         if mode == 'good':
             g = emg3d.solve(model, sfield, sslsolver=False, semicoarsening=True, linerelaxation=True,
@@ -494,6 +574,17 @@ def compare(R, ints, msg):
             return f"info dict differs from model: {dict((k, R.info[k]) for k in ('exit', 'exit_message', 'abs_error', 'it_mg', 'it_ssl'))}"
     elif exit_ != int(v.exit_message != 'CONVERGED'):
         return "exit status"
+    # the residual solve() stored for a supplied field is that of the PEC-zeroed field (ordering of the
+    # PEC zeroing and the already-good-enough test)
+    if R.supplied is not None and R.solve_res:
+        import emg3d
+        want = emg3d.Field(R.grid, R.supplied_raw.copy())
+        K.apply_pec([want.fx, want.fy, want.fz])
+        with np.errstate(all='ignore'):
+            n = float(R.o_res(R.vmodel(), R.sfield, want, True))
+        if not same_float(n, R.solve_res[0]):
+            return (f"residual tested for 'already good enough' is not that of the PEC-zeroed supplied field: "
+                    f"impl {R.solve_res[0]!r}, resnorm(pec supplied) {n!r}")
     # which object carries the result
     if (R.ret_field is not None) != (returned != -7):
         return f"field returned: impl {R.ret_field is not None}, model {returned != -7}"
@@ -607,7 +698,9 @@ def property_check(R):
                 continue
             with np.errstate(all='ignore'):
                 r = indep_resnorm(R.ind, R.sfield, f)
-            noise = 1e-10 * refe + 1e-290      # rounding; denormal range is not resolved
+            with np.errstate(all='ignore'):
+                R.cancel = cancel_scale(R.ind, R.sfield, f)
+            noise = NOISE_EPS * R.cancel + 1e-290      # rounding; denormal range is not resolved
             if not (r <= tol * refe * (1 + 1e-3) + noise):
                 return dict(signature='success reported but the independent residual exceeds tol*|source|',
                             which=which, independent_residual=r, bound=tol * refe, abs_error=float(v.l2), **base)
@@ -639,6 +732,10 @@ def fixed_cases():
         for cyc in ('F', 'V', None):
             out.append((s0, dict(c0, sslsolver=ssl, cycle=cyc, tol=1e-4), 'fresh'))
             out.append((s0, dict(c0, sslsolver=ssl, cycle=cyc, tol=1e-4, always_return=True), 'bad'))
+    for face, which in (('z1', 'both'), ('x0', 'first'), ('y1', 'second')):
+        out.append((dict(s0, nonpec={'face': face, 'which': which}), c0, 'good_nonpec'))
+        out.append((dict(s1, nonpec={'face': face, 'which': which}),
+                    dict(c0, sslsolver='bicgstab', tol=1e-4, return_info=False), 'good_nonpec'))
     out.append((s0, dict(c0, maxit=1), 'fresh'))
     out.append((s0, dict(c0, maxit=2, semicoarsening=1213, linerelaxation=56), 'bad'))
     out.append((s0, dict(c0, tol=1e-30, maxit=50), 'fresh'))          # stagnation
@@ -654,7 +751,12 @@ def gen_cases(ctx, n):
         mode = rng.choice(['fresh'] * 5 + ['good', 'good', 'bad', 'bad', 'bad', 'wrongdtype', 'zero_fresh',
                                            'zero_supplied', 'zero_supplied', 'nofreq', 'nan_source',
                                            'tiny_source'])
-        cases.append((rand_spec(rng), rand_cfg(rng), mode))
+        spec = rand_spec(rng)
+        if rng.random() < 0.06:
+            mode = 'good_nonpec'
+            spec['nonpec'] = {'face': rng.choice(FACES), 'which': rng.choice(['both', 'first', 'second'])}
+            spec['src_exp'] = 0
+        cases.append((spec, rand_cfg(rng), mode))
     return cases
 
 
@@ -735,10 +837,30 @@ def stub_precond_then_breakdown(A, b, x0, M, cb):
     return x0.copy(), -10
 
 
+def nonpec_block():
+    """Deterministic first block of the searcher: supplied fields that already satisfy the interior
+    equations but are not PEC (every face, single/both tangential components, complex and real,
+    with/without return_info / always_return, multigrid and Krylov configurations)."""
+    s0 = fixed_cases()[0][0]
+    s1 = fixed_cases()[1][0]
+    s2 = dict(s0, shape=[8, 4, 4], hx=[1, 1, 1.5, 2, 2, 1.5, 1, 1], aniso=3, has_mu=True, np_seed=13)
+    c0 = fixed_cases()[0][1]
+    out = []
+    for i, face in enumerate(FACES):
+        which = ['both', 'first', 'second'][i % 3]
+        npc = {'face': face, 'which': which}
+        out.append((dict(s0, nonpec=npc), dict(c0, tol=1e-5), 'good_nonpec', None))
+        out.append((dict(s1, nonpec=npc), dict(c0, tol=1e-4, return_info=False, always_return=(i % 2 == 0)),
+                    'good_nonpec', None))
+        out.append((dict(s2, nonpec=npc), dict(c0, sslsolver=['bicgstab', 'cgs', 'gcrotmk'][i % 3], tol=1e-5,
+                                               semicoarsening=True, linerelaxation=True), 'good_nonpec', None))
+    return out
+
+
 def targeted(ctx):
     s0 = fixed_cases()[0][0]
     c0 = fixed_cases()[0][1]
-    out = [(s0, c0, 'zero_supplied', None), (s0, dict(c0, always_return=True), 'zero_supplied', None),
+    out = nonpec_block() + [(s0, c0, 'zero_supplied', None), (s0, dict(c0, always_return=True), 'zero_supplied', None),
            (s0, c0, 'zero_fresh', None)]
     for ssl in SOLVERS:
         for cyc in ('F', None):
@@ -776,7 +898,8 @@ def search(ctx, broken):
     ctx.notes.append(f"searcher: property evaluated on {len(cases)} real solver runs "
                      f"(targeted zero-source / Krylov cases first)")
     # most telling first: genuine-scipy hits before stub hits
-    prio = ["zero source: success reported but the caller's field is not zero",
+    prio = ['success with a non-PEC field',
+            "zero source: success reported but the caller's field is not zero",
             'reported abs_error is not the residual of the field the caller holds',
             'success reported but the independent residual exceeds tol*|source|']
     hits.sort(key=lambda h: ('krylov_stub' in h, prio.index(h['signature']) if h['signature'] in prio else 9))
